@@ -102,7 +102,7 @@ PROPERTIES.update({k: dict(bounds="", outside="", assumptions=[]) for k in ["C03
 # ---- failed / nested sends (C14) -----------------------------------------------------------------
 for n in ["ser_fail_visit0", "ser_fail_visit1", "ser_fail_visit2", "ser_fail_visit3"]:
     H(n, ["C14"], features="k_rec", sym="later message's value symbolic; number of embedded endpoints visited before the serialisation error concrete (name)", bounds="unwind 8; value with sender, region, sender")
-for n in ["ser_nested_ok", "ser_nested_inner_fails", "ser_nested_regions_ok", "ser_nested_regions_inner_fails"]:
+for n in ["ser_nested_ok", "ser_nested_inner_fails", "ser_nested_regions_ok", "ser_nested_regions_inner_fails", "ser_nested_inner_refused", "ser_nested_regions_inner_refused"]:
     H(n, ["C14", "C05"] if "regions" in n else ["C14"], features="k_rec", sym="none (structure): a send inside a Serialize impl between two attachments of the enclosing value; the inner send completes / fails", bounds="unwind 8; nesting depth 2")
 PROPERTIES.update({k: dict(bounds="", outside="", assumptions=[]) for k in ["C14"]})
 
@@ -240,6 +240,7 @@ for n in ["send_retry_first_single_att", "send_retry_first_frag_att", "send_retr
     H(n, ["C13", "C04"], features="k_rec", sym="none (shape): 3000 / 9000 bytes with reported SO_SNDBUF 8192, the first one or two attempts refused with ENOBUFS, 0 or 2 attachments",
       bounds="unwind 12", opt=["REACH_ERR"])
 
+H("ser_receivers_move", ["C04", "C03", "C09"], features="k_rec", sym="none (shape): a value (IpcReceiver, OpaqueIpcSender, OpaqueIpcReceiver) through ipc::channel; descriptor order, indices, and which local descriptors are closed after the send", bounds="unwind 8")
 H("ser_mixed_indices", ["C04", "C05"], features="k_rec", sym="none (shape): a value (sender, region, sender, region) through ipc::channel; payload indices and descriptor order observed on the wire", bounds="unwind 8")
 for n in ["send_moves_receiver_small", "send_moves_receiver_frag", "send_moves_receiver_retry"]:
     H(n, ["C03", "C09", "C11"], features="k_rec", sym="none (shape): 100 / 9000 / 3000 bytes with reported SO_SNDBUF 8192 (one packet, several, first attempt refused); a receiving end and a clone of a sending end attached",
@@ -263,7 +264,11 @@ H("rxset_crash_after_1_surv", ["C12"], sym=_set_sym + "; the sender dies after 1
 
 H("c16_drop_undecoded_fd0", ["C16", "C03", "C11"], sym="payload bytes symbolic; one unconverted channel attachment whose descriptor number is 0", bounds="unwind 19")
 
-HARNESSES["send_many_64_frag"]["props"].append("C02")   # 65 descriptors on the header packet = follow-ups read from a user channel
+HARNESSES["send_many_64_frag"]["props"].append("C02")
+for _h in ["recv_short_20_d", "recv_short_24_e"]:
+    HARNESSES[_h]["props"].append("C04")   # a re-fragmented small message: the dedicated channel must not come out as an attachment
+for _h in ["transit_unpacked_fd0_dropped_small"]:
+    HARNESSES[_h]["props"].append("C11")   # a received receiving end on descriptor 0 must be closed when dropped   # 65 descriptors on the header packet = follow-ups read from a user channel
 
 for n in ["recv_interleaved_ab", "recv_interleaved_ba"]:
     H(n, ["C02"], sym="contents of both messages symbolic; two multi-packet messages whose packets interleave (follow-ups of the later message arrive first), header order concrete (name)", bounds="unwind 6; 2 messages of 3 and 2 packets")
